@@ -46,6 +46,9 @@ func init() {
 			{ID: "C01.h", Title: "CAS-FAIL-FATAL", Template: "T2", MinInst: 1,
 				Rule: "every return reachable from the error edge of Replace wraps errFatal",
 				Run:  c01h},
+			{ID: "C01.j", Title: "LOADED-STATE", Template: "T6", MinInst: 3,
+				Rule: "the tree, tree-head time and edge tiles a loaded Log starts from are the lock checkpoint's (as C08.a): the next round's time guard compares against the lock store's last time",
+				Run:  c08a},
 			{ID: "C01.i", Title: "TREE-CONSTRUCTION", Template: "T6+T1", MinInst: 4,
 				Rule: "the new tree head is computed from a hash-reader overlay based at the old size over the verified edge tiles, to which the record hash of every sequenced leaf's MerkleTreeLeaf is appended (error checked); new hash tiles are generated from that overlay for [old size, new size)",
 				Run:  c01i},
